@@ -83,6 +83,7 @@ fn run_crash(scn: &Scenario, prop: &str, explore: bool) -> RunResult {
             let (cands, may_fail) = crash::allowed_states(&w, seg, cut, &seg_start_model(&w, cp.seg));
             let ne = if nested && cp.nested.is_empty() { Some((&mut r, 3usize)) } else { None };
             let ctx = crash::phase(&seg.log, cut, &scn.ops);
+            ev.pending_class = crash::pending_class(&w, seg, cut, &seg_start_model(&w, cp.seg), &scn.ops);
             found.extend(ev.eval(seg, cp, &cands, may_fail, &props, &ctx, ne));
         }
     } else if explore {
@@ -109,6 +110,7 @@ fn run_crash(scn: &Scenario, prop: &str, explore: bool) -> RunResult {
                 let cp = CrashPoint { seg: si, spec, nested: vec![] };
                 let ne = if nested { Some((&mut r, 3usize)) } else { None };
                 let ctx = crash::phase(&seg.log, cut, &scn.ops);
+                ev.pending_class = crash::pending_class(&w, seg, cut, &start, &scn.ops);
                 if ctx.starts_with("doctor:") || ctx.starts_with("verify:") {
                     // a crash inside doctor is not among the calls the crash properties list
                     continue;
@@ -391,6 +393,28 @@ pub fn all() -> Vec<CheckDef> {
             rule: "seeded corpora whose documents carry random ACL metadata (absent, valid public/restricted for two tenants, malformed visibility / lists / tenant, JSON-quoted, padded and mixed-case encodings), committed in groups, re-labelled and re-written by updates (metadata inherited unless given anew), followed by retrieval batteries through search, vec_search_with_embedding_acl, search_adaptive_acl and ask with random caller contexts in Enforce and Audit mode, issued while records are pending, after commit, after clean and dirty restarts, on a read-only handle and after doctor; a run is non-trivial iff >=1 mutation was acknowledged and >=1 Enforce answer with hits was judged on a reopened handle; distinct = (op-kind buckets, probes) classes",
             assumptions: &["reference evaluator of the documented policy (sim/src/acl.rs), applied to the metadata the file stores for each returned frame and to the metadata the caller supplied at put time", "this property has no fault or schedule dimension of its own: it is judged over simulator-reached states (pending records, recovery after process death, read-only, doctor)"],
             want_probes: &["acl_enforce_nonempty", "acl_audit_compares", "acl_enforce_without_tenant_rejected", "acl_allowed_refs_checked"],
+        },
+        CheckDef {
+            id: "C26",
+            level: "exploration",
+            quick_s: 40,
+            thorough_s: 600,
+            gen: |s, t| crate::cards::gen_cards(s, t, true),
+            run: run_history,
+            rule: "seeded histories of documents the rules engine extracts memory cards from (values unique to each document), put with and without instant indexing and background-enrichment requests, mixed with ordinary whole and chunked documents, caller-made cards, commits, clean restarts and process death (so that log sequence numbers and frame ids diverge); at every commit, reopen and read-only open each extracted card's source_frame_id must name a frame whose text contains the card's value, and (read-only handle) every enrichment-queue entry must name a document that asked for enrichment; a run is non-trivial iff >=1 mutation was acknowledged and >=1 extracted card or queue entry was judged on a reopened handle; distinct = (op-kind buckets, probes) classes",
+            assumptions: &["the text of a frame is what the real handle's frame_text_by_id returns", "the enrichment queue is drained through next_enrichment_task / complete_enrichment_task on a read-only handle, which never reaches the file"],
+            want_probes: &["extracted_cards_checked", "queue_entries_checked", "abandon", "chunked_puts"],
+        },
+        CheckDef {
+            id: "C27",
+            level: "exploration",
+            quick_s: 40,
+            thorough_s: 600,
+            gen: |s, t| crate::cards::gen_cards(s, t, false),
+            run: run_history,
+            rule: "seeded histories of put_memory_card(s) with random entities, slots, kinds, event/document dates (ties, missing dates, explicit created_at), version relations incl. retractions, logic-mesh nodes and edges, documents, commits, clean restarts and process death; get_memory_at_time / get_current_memory queries at random times (before, at, between, beyond every card) are compared with a reference (newest non-retracted effective time not after t); at every commit, reopen and read-only open the caller-made card set and the mesh must equal the model's (cards added after the last commit are lost by a process death, everything committed survives); a run is non-trivial iff >=1 mutation was acknowledged and >=1 comparison ran on a reopened handle; distinct = (op-kind buckets, probes) classes",
+            assumptions: &["cards and mesh entries are not logged: they become durable at the next commit (explicit, automatic, or on drop); the model loses un-committed ones on process death", "ties in effective time: any of the tied cards is accepted"],
+            want_probes: &["cards_put", "card_queries_answered", "card_queries_beyond_latest", "mesh_adds", "abandon"],
         },
         hist("C42", gen_vacuum, &["vacuum", "deletes", "updates"]),
         medium("C20", &["medium_images", "medium_open_accepted", "medium_open_rejected", "fault_in_payload", "fault_in_toc", "fault_in_footer", "fault_in_wal", "fault_in_indexes"]),
